@@ -448,6 +448,13 @@ def main():
     for (variant, idx, key, detail, casepath, proc_from) in ctx.candidates:
         if key in seen_keys:
             continue
+        kf0 = match_known(known, prop, key)
+        if kf0:
+            # the class is a recorded finding: attributed to it whether or not this particular occurrence replays
+            # (its own replay file is probed below); nothing else is hidden by this, other classes are still gated
+            known_hits[kf0["id"]] = kf0
+            seen_keys.add(key)
+            continue
         exe = exes[variant]
         if casepath is None:
             # crash: regenerate the case with the in-flight recorder
